@@ -321,23 +321,30 @@ impl BezPath {
         if ix == 0 || ix >= self.0.len() {
             return None;
         }
+        // The start of the subpath that element `ix` belongs to is the most
+        // recent `MoveTo`. As in `Segments::next`, it is also the current
+        // point after a `ClosePath`, and the only point a `ClosePath` can
+        // draw a line to.
+        let subpath_start = || {
+            self.0[..ix].iter().rev().find_map(|el| match *el {
+                PathEl::MoveTo(start) => Some(start),
+                _ => None,
+            })
+        };
         let last = match self.0[ix - 1] {
             PathEl::MoveTo(p) => p,
             PathEl::LineTo(p) => p,
             PathEl::QuadTo(_, p2) => p2,
             PathEl::CurveTo(_, _, p3) => p3,
-            PathEl::ClosePath => return None,
+            PathEl::ClosePath => subpath_start()?,
         };
         match self.0[ix] {
             PathEl::LineTo(p) => Some(PathSeg::Line(Line::new(last, p))),
             PathEl::QuadTo(p1, p2) => Some(PathSeg::Quad(QuadBez::new(last, p1, p2))),
             PathEl::CurveTo(p1, p2, p3) => Some(PathSeg::Cubic(CubicBez::new(last, p1, p2, p3))),
-            PathEl::ClosePath => self.0[..ix].iter().rev().find_map(|el| match *el {
-                PathEl::MoveTo(start) if start != last => {
-                    Some(PathSeg::Line(Line::new(last, start)))
-                }
-                _ => None,
-            }),
+            PathEl::ClosePath => subpath_start()
+                .filter(|start| *start != last)
+                .map(|start| PathSeg::Line(Line::new(last, start))),
             PathEl::MoveTo(_) => None,
         }
     }
